@@ -27,7 +27,8 @@ ASSUMPTIONS = [
     'the advisory yes/no answer of an early-stopping check is exempt from the comparison',
 ]
 RPCS = ['SuggestTrials_w', 'SuggestTrials_v', 'CreateTrial', 'CompleteTrial', 'AddTrialMeasurement', 'StopTrial',
-        'DeleteTrial', 'DeleteStudy', 'UpdateMetadata', 'SetStudyState', 'CreateStudy', 'CheckTrialEarlyStoppingState']
+        'DeleteTrial', 'DeleteStudy', 'UpdateMetadata', 'SetStudyState', 'CreateStudy', 'CheckTrialEarlyStoppingState',
+        'DeleteTrial_requested']
 
 
 def _request(name):
@@ -52,6 +53,8 @@ def _request(name):
     return 'StopTrial', vs.StopTrialRequest(name=tn)
   if name == 'DeleteTrial':
     return 'DeleteTrial', vs.DeleteTrialRequest(name=tn)
+  if name == 'DeleteTrial_requested':
+    return 'DeleteTrial', vs.DeleteTrialRequest(name=svc.trial_name(2))       # the queued (REQUESTED) trial
   if name == 'DeleteStudy':
     return 'DeleteStudy', vs.DeleteStudyRequest(name=S)
   if name == 'UpdateMetadata':
@@ -114,6 +117,7 @@ class _Ctl:
     self.paused = threading.Event()
     self.resume = threading.Event()
     self.trace = []
+    self.deleted, self.reused = set(), False      # trial names deleted / a deleted trial's id handed out again, in this run
 
 
 class _Proxy:
@@ -136,6 +140,10 @@ class _Proxy:
           ctl.resume.wait(10)
         ctl.count += 1
       ctl.trace.append((who, name))
+      if name == 'delete_trial' and a:
+        ctl.deleted.add(a[0])
+      elif name == 'create_trial' and a and a[0].name in ctl.deleted:
+        ctl.reused = True
       return target(*a, **kw)
 
     return call
@@ -171,7 +179,7 @@ def _obs(resp, name):
   return n
 
 
-def _outcome(sv, ra, rb, base_ids):
+def _outcome(sv, ra, rb, base_ids, rc=None):
   state = {'s': svc.abstract(sv), 'new': svc.abstract(sv, 'owners/o/studies/new')}
   try:
     state['studies'] = sorted(s.name for s in sv.datastore.list_studies(svc.OWNER))
@@ -185,22 +193,24 @@ def _outcome(sv, ra, rb, base_ids):
       ops[c] = []
   state['ops'] = ops
   out = {'a': ra, 'b': rb, 'state': state}
-  # renumber the trials created during the run (ids not in the pre-state): n-th created -> -(n)
-  # (any renumbering is allowed: label by content, ties by id)
-  trials = state['s']['trials'] if state['s'] else {}
-  created = sorted((i for i in trials if i not in base_ids),
-                   key=lambda i: (repr(sorted((k, repr(v)) for k, v in trials[i].items() if k != 'id')), i))
-  ren = {i: -(n + 1) for n, i in enumerate(created)}
-  return _renumber(out, ren)
+  if rc is not None:
+    out['c'] = rc
+  return _canon(out, base_ids)
 
 
-def _renumber(x, ren):
+def _canon(x, base_ids):
+  """Outcomes are compared up to the ids of trials created during the run.  Ids are max+1, so an id freed by a delete can be
+  handed out again and an id alone does not identify a trial: every trial is labelled by CONTENT instead -- a pre-state
+  trial (x = 0.25, pre-state id) keeps its id, any other trial is 'new'; a map id -> trial becomes a sorted list."""
   if isinstance(x, dict):
     if 'id' in x and 'state' in x and 'client' in x:
-      x = dict(x, id=ren.get(x['id'], x['id']))
-    return {ren.get(k, k) if isinstance(k, int) else k: _renumber(v, ren) for k, v in x.items()}
+      pre = x['id'] in base_ids and x['params'] == [['x', 0.25]]
+      return [x['id'] if pre else 'new', {k: _canon(v, base_ids) for k, v in x.items() if k != 'id'}]
+    if x and all(isinstance(k, int) for k in x):
+      return sorted((_canon(v, base_ids) for v in x.values()), key=repr)
+    return {k: _canon(v, base_ids) for k, v in x.items()}
   if isinstance(x, (list, tuple)):
-    return [_renumber(v, ren) for v in x]
+    return [_canon(v, base_ids) for v in x]
   return x
 
 
@@ -258,9 +268,13 @@ def _schedule(a_name, b_name, k, args):
     sv.datastore = sv.datastore._ds
     got = _outcome(sv, results['a'][:2], results['b'][:2], base)
     ok = got == serial_ab or got == serial_ba
+    if _dup_ids([a_name, b_name], results):              # (hidden by the relabelling: checked on the raw responses)
+      ok = False
     if not ok:
-      kf = 'C04-' + '+'.join(sorted([a_name.split('_')[0], b_name.split('_')[0]]))
-      if known(kf):
+      # open findings are recognised by their SIGNATURE in this run, not by the pair alone: the id of a trial deleted
+      # during the run was handed out again / X ended with an error class no serial order produces next to DeleteStudy
+      kf = KF_REUSE if (ctl.reused and known(KF_REUSE)) else _known_triple([a_name, b_name], results)
+      if kf:
         reach('known:' + kf)
         return finish(True, args, obs=[tag, 'known finding ' + kf])
     reach('serializable' if ok else 'NOT serializable')
@@ -269,12 +283,126 @@ def _schedule(a_name, b_name, k, args):
 
 def pair(a: int, b: int, k: int) -> bool:
   """
-  pre: 0 <= a <= 11 and 0 <= b <= 11 and 0 <= k <= 11
+  pre: 0 <= a <= 12 and 0 <= b <= 12 and 0 <= k <= 11
   post: _
   """
-  a = conc(a, 0, 11)
+  a = conc(a, 0, 12)
   sl = os.environ.get('VERIF_SLICE')
   if sl is not None and a != int(sl):
     return True
-  b, k = conc(b, 0, 11), conc(k, 0, 11)
+  b, k = conc(b, 0, 12), conc(k, 0, 11)
   return _schedule(RPCS[a], RPCS[b], k, (a, b, k))
+
+
+# ---- three parties: A suspended at its k-th datastore operation, then B, then C run until they finish or block ----------
+TRI = ['CreateTrial', 'DeleteStudy', 'SuggestTrials_v', 'CompleteTrial', 'UpdateMetadata', 'SetStudyState', 'DeleteTrial',
+       'DeleteTrial_requested']
+
+
+KF_REUSE = 'C04-DeleteTrial+SuggestTrials-trial-id-reused'
+
+
+def _dup_ids(names, results):
+  """One SuggestTrials response carrying two trials with the same id."""
+  for tag, n in zip('abc', names):
+    if n.startswith('SuggestTrials') and tag in results:
+      obs = results[tag][1]
+      if isinstance(obs, list) and len(obs) == 3:
+        ids = [t['id'] for t in obs[2]]
+        if len(ids) != len(set(ids)):
+          return True
+  return False
+
+
+def _known_triple(names, results):
+  """The open pair findings (X || DeleteStudy: X ends with an error class no serial order produces) also show in a triple;
+  a triple is attributed to them only when it shows that very signature."""
+  if 'DeleteStudy' not in names:
+    return None
+  for tag, n in zip('abc', names):
+    base = n.split('_')[0]
+    if base == 'DeleteStudy':
+      continue
+    cls, obs = results[tag][0], results[tag][1]
+    odd = cls == svc.OTHER_ERROR or (base == 'UpdateMetadata' and obs is True)
+    if odd:
+      kf = 'C04-' + '+'.join(sorted([base, 'DeleteStudy']))
+      if known(kf):
+        return kf
+  return None
+
+
+def _triple(names, k, args):
+  import itertools
+  with NoTracing():
+    serial = []
+    base = None
+    for order in itertools.permutations(range(3)):
+      sv = _fresh()
+      base = set(svc.abstract(sv)['trials'])
+      res = [None, None, None]
+      for i in order:
+        m, req = _request(names[i])
+        r, e = svc.call(getattr(sv, m), req)
+        res[i] = (svc.classify(e), _obs(r, names[i]))
+      serial.append(_outcome(sv, res[0], res[1], base, res[2]))
+    sv = _fresh()
+    ctl = _Ctl(k)
+    sv.datastore = _Proxy(sv.datastore, ctl)
+    sv._owner_name_to_lock = _LockTable(ctl)
+    sv._study_name_to_lock = _LockTable(ctl)
+    sv._operation_lock = _LockTable(ctl)
+    results = {}
+
+    def run(tag, name):
+      m, req = _request(name)
+      r, e = svc.call(getattr(sv, m), req)
+      results[tag] = (svc.classify(e), _obs(r, name), None if e is None else type(e).__name__)
+
+    ta = threading.Thread(target=run, args=('a', names[0]), name='A', daemon=True)
+    ta.start()
+    while not ctl.paused.is_set() and ta.is_alive():
+      ta.join(0.002)
+    if not ctl.paused.is_set():
+      return True
+    others = []
+    for tag, name, tname in (('b', names[1], 'B'), ('c', names[2], 'C')):
+      t = threading.Thread(target=run, args=(tag, name), name=tname, daemon=True)
+      t.start()
+      waited = 0.0
+      while t.is_alive() and tname not in ctl.waiting and waited < 5.0:
+        t.join(0.002)
+        waited += 0.002
+      others.append(t)
+    ctl.resume.set()
+    for t in [ta] + others:
+      t.join(5)
+    tag = '%s|%s|%s@%d' % (names[0], names[1], names[2], k)
+    if any(t.is_alive() for t in [ta] + others):
+      reach('deadlock3')
+      return finish(False, args, obs=[tag, 'deadlock / did not terminate'])
+    sv.datastore = sv.datastore._ds
+    got = _outcome(sv, results['a'][:2], results['b'][:2], base, results['c'][:2])
+    ok = got in serial
+    if _dup_ids(names, results):
+      ok = False
+    if not ok:
+      kf = KF_REUSE if (ctl.reused and known(KF_REUSE)) else _known_triple(names, results)
+      if kf:
+        reach('known3:' + kf)
+        return finish(True, args, obs=[tag, 'known finding ' + kf])
+    reach('serializable3' if ok else 'NOT serializable3')
+    return finish(ok, args, obs=[tag, None if ok else {'got': got, 'serial': serial}])
+
+
+def triple(a: int, b: int, c: int, k: int) -> bool:
+  """
+  pre: 0 <= a <= 7 and 0 <= b <= 7 and 0 <= c <= 7 and 0 <= k <= 9
+  post: _
+  """
+  a = conc(a, 0, 7)
+  sl = os.environ.get('VERIF_SLICE')
+  if sl is not None and a != int(sl):
+    return True
+  b, c, k = conc(b, 0, 7), conc(c, 0, 7), conc(k, 0, 9)
+  return _triple([TRI[a], TRI[b], TRI[c]], k, (a, b, c, k))
